@@ -107,13 +107,21 @@ class Harness(object):
 
     def send(self, chunks, gap=0.004):
         for c in chunks:
-            self.a.sendall(c)
+            try:
+                self.a.sendall(c)
+            except OSError as e:
+                # the server end is already closed: an observation (it shows up as missing replies), not a failure of the harness
+                self.err.append('send: %s' % type(e).__name__)
+                break
             if gap:
                 time.sleep(gap)
 
     def finish(self, expect=None, wait=1.0):
         """half-close our side and collect everything the server sends until it closes"""
-        self.a.shutdown(socket.SHUT_WR)
+        try:
+            self.a.shutdown(socket.SHUT_WR)
+        except OSError as e:
+            self.err.append('shutdown: %s' % type(e).__name__)
         self.a.settimeout(wait)
         buf = b''
         try:
